@@ -807,10 +807,11 @@ class Engine:
                 # dropped with it. Collect it, so that the process
                 # (which lives on when it was moved) has no command
                 # pending.
-                advance = self.front.get(path)
+                # The front entry goes too: a process created at this
+                # path later starts afresh at the time of its creation.
+                advance = self.front.pop(path, None)
                 if advance and advance['update']:
                     advance['update'][0].get()
-                    advance['update'] = {}
 
         for path in list(self._step_paths):
             if starts_with(path, deletion):
